@@ -463,7 +463,42 @@ func sameObs(a, b evalObs) bool {
 	if json.Unmarshal(ra, &va) != nil || json.Unmarshal(rb, &vb) != nil {
 		return false
 	}
-	return reflect.DeepEqual(va, vb)
+	return reflect.DeepEqual(unnest(va), unnest(vb))
+}
+
+// unnest replaces every string that holds a JSON document (as text or base64 of text: what a redaction through
+// .json() parses and writes back, with the members of its objects in map order) by the parsed document.
+func unnest(v interface{}) interface{} {
+	switch x := v.(type) {
+	case map[string]interface{}:
+		for k, e := range x {
+			x[k] = unnest(e)
+		}
+		return x
+	case []interface{}:
+		for i, e := range x {
+			x[i] = unnest(e)
+		}
+		return x
+	case string:
+		t := strings.TrimSpace(x)
+		wrapped := false
+		if !strings.HasPrefix(t, "{") && !strings.HasPrefix(t, "[") {
+			d, err := base64.StdEncoding.DecodeString(x)
+			if err != nil {
+				return x
+			}
+			t, wrapped = strings.TrimSpace(string(d)), true
+		}
+		if strings.HasPrefix(t, "{") || strings.HasPrefix(t, "[") {
+			var inner interface{}
+			if json.Unmarshal([]byte(t), &inner) == nil {
+				return map[string]interface{}{"\x00nested-document": unnest(inner), "\x00base64": wrapped}
+			}
+		}
+		return x
+	}
+	return v
 }
 
 type reuseOut struct {
@@ -595,10 +630,10 @@ var _ = jp.Expr{}
 
 // --------------------------------------------------------------------------------------- surface
 type surfaceOut struct {
-	Outcome string `json:"outcome"` // ok | error | panic
-	Msg     string `json:"msg,omitempty"`
-	Ast     string `json:"ast,omitempty"`
-	Regexes string `json:"regexes,omitempty"` // Coq list (bytes * bool): regexp.Compile(strings.Trim(token, `"`)) succeeds
+	Outcome string   `json:"outcome"` // ok | error | panic
+	Msg     string   `json:"msg,omitempty"`
+	Ast     string   `json:"ast,omitempty"`
+	Regexes string   `json:"regexes,omitempty"` // Coq list (bytes * bool): regexp.Compile(strings.Trim(token, `"`)) succeeds
 	Shape   []string `json:"shape,omitempty"`
 }
 
